@@ -445,8 +445,9 @@ func (p *PHYPayload) DecryptFRMPayload(key AES128Key) error {
 	}
 
 	// the FRMPayload contains MAC commands, which we need to unmarshal
+	// (an empty FRMPayload holds no commands: there is nothing to decode)
 	var err error
-	if macPL.FPort != nil && *macPL.FPort == 0 {
+	if macPL.FPort != nil && *macPL.FPort == 0 && len(macPL.FRMPayload) != 0 {
 		macPL.FRMPayload, err = decodeDataPayloadToMACCommands(p.isUplink(), macPL.FRMPayload)
 	}
 
